@@ -400,6 +400,13 @@ impl VM {
                     }
                     let [ip, num_locals] = obj.as_function();
 
+                    // every argument needs a slot: parameters are the first locals of a function
+                    if num_args as u32 > num_locals {
+                        return Err(Error::ArgumentError(format!(
+                            "functie kreeg {num_args} argumenten, maar heeft maar ruimte voor {num_locals}"
+                        )));
+                    }
+
                     // Make room on the stack for any local variables defined inside this function
                     for _ in 0..num_locals - num_args as u32 {
                         self.push(Object::null());
